@@ -3,6 +3,7 @@ package proto
 import (
 	"encoding/json"
 	"fmt"
+	"strings"
 	"sync"
 
 	"verif/props/core"
@@ -23,6 +24,9 @@ type RTFamily struct {
 	Bound func(tier string) int
 	Clock bool
 	OutcomeKey func(r *RTResult) string
+	// SecondEvery > 0: every SecondEvery-th item is also executed AFTER another request of the same kind in the same process
+	// (different port, TTL range and flags) and must be judged the same and observe the same hops as when it comes first
+	SecondEvery int
 
 	mu    sync.Mutex
 	cache map[string][]RTItem
@@ -102,6 +106,27 @@ func (f *RTFamily) Run(tier string, idx int, r *core.ScnResult) {
 	}
 	e.Explore()
 	r.Stats = e.Stats
+	if f.SecondEvery > 0 && idx%f.SecondEvery == 0 && it.Scn.After == nil && r.Infra == "" && len(r.Failures) == 0 {
+		first := f.RunPlain(it)
+		second := *it
+		pre := EarlierRequest(&it.Scn)
+		second.Scn.After = &pre
+		second.Class = it.Class + "/after-an-earlier-request"
+		res := f.RunPlain(&second)
+		r.Branch("after-earlier-request-checked")
+		var issues []Issue
+		if fi := rtFatal(res); fi != nil {
+			issues = append(issues, *fi)
+		} else {
+			issues = f.Check(&second, res)
+			if a, b := first.Summary0(), res.Summary0(); a != b {
+				issues = append(issues, Issue{Key: "differs-from-first-request", Detail: fmt.Sprintf("as first request: %s ; after an earlier request: %s", a, b)})
+			}
+		}
+		for _, is := range issues {
+			r.Fail(core.Failure{Key: f.ID + " " + second.Class + "/" + is.Key, What: is.Detail, Scenario: core.JSON(&second)})
+		}
+	}
 	if idx%29 == 0 {
 		a := f.RunPlain(it)
 		b := f.RunPlain(it)
@@ -135,6 +160,14 @@ func (f *RTFamily) Replay(scn json.RawMessage, choices []int) (string, bool) {
 		issues = append(issues, *fi)
 	} else {
 		issues = f.Check(&it, res)
+		if it.Scn.After != nil && strings.HasSuffix(it.Class, "/after-an-earlier-request") {
+			alone := it
+			alone.Scn.After = nil
+			first := f.RunPlain(&alone)
+			if a, b := first.Summary0(), res.Summary0(); a != b {
+				issues = append(issues, Issue{Key: "differs-from-first-request", Detail: fmt.Sprintf("as first request: %s ; after an earlier request: %s", a, b)})
+			}
+		}
 	}
 	for _, is := range issues {
 		s += fmt.Sprintf("ORACLE FAILED: %s %s/%s: %s\n", f.ID, it.Class, is.Key, is.Detail)
@@ -143,6 +176,26 @@ func (f *RTFamily) Replay(scn json.RawMessage, choices []int) (string, bool) {
 		return s, false
 	}
 	return s + "oracle: ok\n", true
+}
+
+// EarlierRequest is a plain request of the same kind as sc (same target string, protocol, method) whose every other
+// parameter differs: the request that "came before" in the non-initial-state checks.
+func EarlierRequest(sc *RTScn) RTScn {
+	pre := RTScn{Hostname: sc.Hostname, Protocol: sc.Protocol, Method: sc.Method, WantV6: sc.WantV6, Paris: sc.Paris, MinTTL: 1, MaxTTL: 2, DelayMs: 10, TimeoutMs: 100,
+		Queries: 1, Dest: 2, IPIDBase: sc.IPIDBase, EchoBase: sc.EchoBase, UseListenerPort: sc.UseListenerPort, Capability: sc.Capability, HTTP: sc.HTTP,
+		ReverseDNS: !sc.ReverseDNS, SkipPrivate: !sc.SkipPrivate}
+	switch {
+	case sc.UseListenerPort:
+		pre.Port = sc.Port
+	case sc.Port == 4444:
+		pre.Port = 5555
+	default:
+		pre.Port = 4444
+	}
+	if pre.Protocol != "udp" && pre.Protocol != "tcp" && pre.Protocol != "icmp" {
+		pre.Protocol = "udp"
+	}
+	return pre
 }
 
 // Summary0: schedule-independent summary.
